@@ -290,7 +290,58 @@ def run(ctx):
                                       "more is split at the wrong positions" % (nm, norm(bad[0]))), oid='%s:%s' % (fq, nm))
             else:
                 ctx.ok('R-TSTEPSTR', '%s:%s' % (fq, nm), w_, 'slices %s anchored at the right end' % [norm(x.slice) for x in sl])
-    ctx.floor("'%06d' time strings", nts, 2)
+    # ---- R-HMSRADIX: arithmetic decoding of a packed H..HMMSS integer splits at 10000 and 100, and never limits the hours
+    ctx.rule('R-HMSRADIX', 'a packed H..HMMSS integer is split with the radices 10000 and 100 only, and the hours part is not reduced modulo anything')
+    for rp_, fq in (('core/_files.py', 'PseudoNetCDFFile.getTimes'), ('conventions/ioapi/_ioapi.py', 'add_time_variable')):
+        f_ = src.mod(rp_).func(fq)
+        w_ = 'src/PseudoNetCDF/%s %s' % (rp_, fq)
+        packed, mmss = set(), set()
+        for st in iter_stmts(f_.body):
+            if isinstance(st, ast.Assign) and len(st.targets) == 1 and isinstance(st.targets[0], ast.Name):
+                v_ = st.value
+                while isinstance(v_, ast.Call) and dotted(v_.func) == 'int' and len(v_.args) == 1:
+                    v_ = v_.args[0]
+                if (isinstance(v_, ast.Attribute) and v_.attr in ('TSTEP', 'STIME', 'ETIME')) or \
+                        (isinstance(v_, ast.Call) and dotted(v_.func) == 'getattr' and len(v_.args) >= 2 and const_str(v_.args[1]) in ('TSTEP', 'STIME', 'ETIME')):
+                    packed.add(st.targets[0].id)
+
+        def is_packed(e):
+            return (isinstance(e, ast.Name) and e.id in packed) or (isinstance(e, ast.Attribute) and e.attr in ('TSTEP', 'STIME', 'ETIME')) or \
+                (isinstance(e, ast.Call) and dotted(e.func) in ('int', 'getattr') and e.args and (is_packed(e.args[0]) or 'TSTEP' in norm(e) or 'STIME' in norm(e)))
+        for st in iter_stmts(f_.body):
+            for c in walk_expr(st) if not isinstance(st, (ast.If, ast.For, ast.While, ast.Try, ast.With)) else []:
+                if isinstance(c, ast.Call) and dotted(c.func) == 'divmod' and len(c.args) == 2 and isinstance(c.args[1], ast.Constant):
+                    k_ = c.args[1].value
+                    tg = st.targets[0] if isinstance(st, ast.Assign) and isinstance(st.targets[0], ast.Tuple) and len(st.targets[0].elts) == 2 else None
+                    if is_packed(c.args[0]):
+                        nts += 1
+                        if k_ == 10000:
+                            if tg is not None and isinstance(tg.elts[1], ast.Name):
+                                mmss.add(tg.elts[1].id)
+                            ctx.ok('R-HMSRADIX', '%s:%s' % (fq, norm(c)[:30]), w_, 'hours split off at 10000')
+                        elif k_ == 100:
+                            ctx.ok('R-HMSRADIX', '%s:%s' % (fq, norm(c)[:30]), w_, 'seconds split off at 100')
+                        else:
+                            ctx.violation(Finding('R-HMSRADIX', rp_, fq, st, 'the packed H..HMMSS value is split with divmod(.., %r): the fields are decimal (10000, 100)' % k_))
+                    elif isinstance(c.args[0], ast.Name) and c.args[0].id in mmss:
+                        nts += 1
+                        if k_ == 100:
+                            ctx.ok('R-HMSRADIX', '%s:%s' % (fq, norm(c)[:30]), w_, 'minutes and seconds split at 100')
+                        else:
+                            ctx.violation(Finding('R-HMSRADIX', rp_, fq, st, 'the MMSS remainder of a packed time is split with divmod(.., %r) instead of 100: the fields are decimal, so a step of 30 minutes '
+                                                  '(3000) is decoded as 50 minutes' % k_))
+                if isinstance(c, ast.BinOp) and isinstance(c.op, ast.Mod) and isinstance(c.left, ast.BinOp) and isinstance(c.left.op, ast.FloorDiv) and is_packed(c.left.left) \
+                        and isinstance(c.left.right, ast.Constant) and c.left.right.value == 10000:
+                    nts += 1
+                    ctx.violation(Finding('R-HMSRADIX', rp_, fq, st, 'the hours part of the packed step (%s) is reduced with %% %s: a step of 100 hours or more (weekly 1680000) loses its leading digits' % (
+                        norm(c.left), norm(c.right))))
+                if isinstance(c, ast.BinOp) and isinstance(c.op, (ast.Mod, ast.FloorDiv)) and is_packed(c.left) and isinstance(c.right, ast.Constant):
+                    nts += 1
+                    if c.right.value in (100, 10000):
+                        ctx.ok('R-HMSRADIX', '%s:%s' % (fq, norm(c)[:30]), w_, 'decimal radix')
+                    else:
+                        ctx.violation(Finding('R-HMSRADIX', rp_, fq, st, 'the packed H..HMMSS value is split with %s: the fields are decimal (10000, 100)' % norm(c)))
+    ctx.floor("decodes of packed times ('%06d' strings and arithmetic splits)", nts, 2)
     # ---- R-PARAMDEAD on the inverse mappings
     ctx.rule('R-PARAMDEAD', 'a resolved optional parameter is used afterwards')
     for name in ('time2idx', 'date2num', 'time2t'):
